@@ -662,8 +662,7 @@ func (e *vEval) eval(n *vNode) []vSeries {
 			// any non-empty sub-vector, labels (and __name__) untouched
 			any := false
 			for i := range in {
-				out[i] = in[i]
-				out[i].known = false
+				out[i] = in[i] // the sample value is untouched
 				out[i].valid = verifAnd(in[i].valid, verifBool(t+"keep"+verifItoa(i)))
 				any = verifOr(any, out[i].valid)
 			}
@@ -683,6 +682,18 @@ func (e *vEval) eval(n *vNode) []vSeries {
 				verifAssume(cv >= 1 && cv <= 2)
 				s.lab[n.cvl] = cv
 			}
+			// value of an aggregation over a single constant series (what pint's constant folding has to agree with)
+			if len(in) == 1 && in[0].known {
+				s.known = true
+				switch n.aopItem {
+				case promParser.COUNT, promParser.GROUP, promParser.COUNT_VALUES:
+					s.val = 1
+				case promParser.STDDEV, promParser.STDVAR:
+					s.val = 0
+				default: // sum min max avg quantile of one sample
+					s.val = in[0].val
+				}
+			}
 			// one output series per distinct group
 			for j := 0; j < i; j++ {
 				s.valid = verifAnd(s.valid, !verifAnd(out[j].valid, verifSameLabels(out[j], s, false)))
@@ -695,7 +706,8 @@ func (e *vEval) eval(n *vNode) []vSeries {
 		out := make([]vSeries, len(in))
 		for i := range in {
 			out[i] = in[i]
-			out[i].known = false
+			// abs / ceil / sort / label_replace / label_join of a constant k in {0,1,2} is k; other functions: unknown value
+			out[i].known = in[i].known && (n.fn == vFnReplace || n.fnName == "abs" || n.fnName == "ceil" || n.fnName == "sort")
 			switch {
 			case n.fn == vFnReplace:
 				nv := verifInt(t + "lr" + verifItoa(i))
